@@ -53,7 +53,8 @@ fn ob_alloc_zeroed_default(via_ref: bool) {
     let al = two();
     let s_new: usize = kani::any();
     kani::assume(s_new <= B);
-    let r = if via_ref { (&al).allocate_zeroed(Layout::from_size_align(s_new, 1).unwrap()) } else { al.allocate_zeroed(Layout::from_size_align(s_new, 1).unwrap()) };
+    // fully qualified: `(&al).allocate_zeroed(..)` would resolve to `Two`'s own method, not to the blanket impl for `&A`
+    let r = if via_ref { <&Two as Allocator>::allocate_zeroed(&&al, Layout::from_size_align(s_new, 1).unwrap()) } else { al.allocate_zeroed(Layout::from_size_align(s_new, 1).unwrap()) };
     let Ok(p) = r else {
         kani::assert(false, "C07.allocate_zeroed.not_refused_succeeds");
         return;
@@ -76,7 +77,7 @@ fn ob_alloc_defaults(op: u8, via_ref: bool) {
     kani::assume(if growing { s_new >= s_old } else { s_new <= s_old });
     let old = Layout::from_size_align(s_old, 1).unwrap();
     let new = Layout::from_size_align(s_new, 1).unwrap();
-    let p0 = al.allocate(old).unwrap();
+    let p0 = if via_ref { <&Two as Allocator>::allocate(&&al, old).unwrap() } else { al.allocate(old).unwrap() };
     let base0 = p0.as_ptr() as *mut u8;
     // content of the old block
     let j: usize = kani::any();
@@ -88,11 +89,11 @@ fn ob_alloc_defaults(op: u8, via_ref: bool) {
     let r = unsafe {
         match (op, via_ref) {
             (0, false) => al.grow(ptr0, old, new),
-            (0, true) => (&al).grow(ptr0, old, new),
+            (0, true) => <&Two as Allocator>::grow(&&al, ptr0, old, new),
             (1, false) => al.grow_zeroed(ptr0, old, new),
-            (1, true) => (&al).grow_zeroed(ptr0, old, new),
+            (1, true) => <&Two as Allocator>::grow_zeroed(&&al, ptr0, old, new),
             (_, false) => al.shrink(ptr0, old, new),
-            (_, true) => (&al).shrink(ptr0, old, new),
+            (_, true) => <&Two as Allocator>::shrink(&&al, ptr0, old, new),
         }
     };
     match r {
